@@ -5,7 +5,8 @@ from gen_http import Request, Header, Chunk
 
 HARNESS = "rx_driver"
 LEAN_MODULES = ["ViaProofs.C02"]
-REQUIRED_THEOREMS = []
+LEMMA_MODULES = ['ViaProofs.Frag.Lines', 'ViaProofs.Frag.Headers', 'ViaProofs.Frag.Compose', 'ViaProofs.C01', 'ViaProofs.C05']
+REQUIRED_THEOREMS = ['Via.C02_method_at_limit', 'Via.C02_method_beyond', 'Via.C02_uri_at_limit', 'Via.C02_uri_beyond', 'Via.C02_ws_before_target', 'Via.C02_content_length_invalid', 'Via.C02_content_length_too_large', 'Via.C02_content_length_at_limit', 'Via.C02_trace_with_body', 'Via.C02_trace_proposes_405', 'Via.C02_missing_host']
 LEVEL = "proof"
 RULE = ("requests obtained from a well-formed one by ONE violating change of a known class (method/target length, version "
         "token, whitespace run, header-name byte, line/count/total limits, missing Host, Content-Length syntax/size, chunk "
